@@ -628,7 +628,7 @@ def run(ctx):
     setup(ctx)
     rng = ctx.rng
     cases = corpus()
-    n = ctx.n(260, 4000)
+    n = ctx.n(260, 2000)
     gen = []
     for i in range(n):
         c = gen_content(rng, rational=(i % 3 == 2))
@@ -649,7 +649,7 @@ def run(ctx):
     # trajectories: quick = the two corpus models that convert; thorough = generated ones incl. stiff
     tcases = [dict(c, t_end=2) for c in corpus() if c["tag"] in ("jac-closure", "decl-order")]
     if ctx.tier == "thorough":
-        for i in range(150):
+        for i in range(90):
             c = gen_content(rng, rational=(i % 2 == 0), p_odd=0.0, stiff=(i % 3 == 0))
             if should_convert(c) == "ok":
                 tcases.append({"content": c, "points": [], "t_end": 1 if i % 3 == 0 else 2})
